@@ -64,9 +64,14 @@ func runC06(c *Ctx, prop string) {
 	write := p.Func("file", "WriteFile")
 	parse := p.Func("file", "ParseFile")
 	tfc := p.Func("file", "tagFromComment")
-	if inject == nil || write == nil || parse == nil || tfc == nil {
-		c.Unk(prop+"-ONLY", "file", "anchor", token.NoPos, "injectTag / WriteFile / ParseFile / tagFromComment not found")
+	if inject == nil || write == nil || parse == nil {
+		c.Unk(prop+"-ONLY", "file", "anchor", token.NoPos, "injectTag / WriteFile / ParseFile not found")
 		return
+	}
+	// the comment matcher may have been inlined into the parser: then the parser is its own matcher
+	tfcInlined := tfc == nil
+	if tfcInlined {
+		tfc = parse
 	}
 	for _, f := range []*ssa.Function{inject, write, parse, tfc} {
 		c.Funcs[fnName(f)] = true
@@ -196,7 +201,12 @@ func runC06(c *Ctx, prop string) {
 					}
 					s, isEmpty := constString(cmp.Y)
 					tc, isCall := cmp.X.(*ssa.Call)
-					if isEmpty && s == "" && isCall && staticCallee(&tc.Call) == tfc {
+					isTag := isCall && staticCallee(&tc.Call) == tfc
+					if tfcInlined {
+						// the tag text: the second submatch of the comment pattern (or "" when it did not match)
+						isTag = isSubmatchTag(cmp.X, map[ssa.Value]bool{})
+					}
+					if isEmpty && s == "" && isTag {
 						onTrue := d.Preds[0].Succs[0] == d
 						if (cmp.Op == token.EQL && !onTrue) || (cmp.Op == token.NEQ && onTrue) {
 							guarded = true
@@ -239,7 +249,9 @@ func runC06(c *Ctx, prop string) {
 			role := func(v ssa.Value) string {
 				call, ok := v.(*ssa.Call)
 				if !ok || calleeName(&call.Call) != "file.newTagItems" {
-					return "?"
+					// the tokeniser inlined: the list is built by appends in a loop over
+					// rTags.FindAllString(<area tag text>, -1)
+					return roleOfInlinedList(v)
 				}
 				ld, ok := call.Call.Args[0].(*ssa.UnOp)
 				if !ok {
@@ -648,7 +660,6 @@ func runFreshFileSet(c *Ctx, rule string) {
 	}
 }
 
-
 // renderParts flattens a string built by concatenation or by fmt.Sprintf with a format made of
 // %s/%v verbs and literal text into its parts: "const:<text>", "field:<x>.<name>" for loads of
 // struct fields, "val:<ssa name>" otherwise. Nil when the shape is not recognised.
@@ -731,7 +742,6 @@ func renderParts(v ssa.Value) []string {
 	return []string{"val:" + v.Name()}
 }
 
-
 // isFreshEmptySlice: make(T, 0[, n]) or a T{} literal: a slice of length 0 that aliases nothing else.
 func isFreshEmptySlice(v ssa.Value) bool {
 	switch x := v.(type) {
@@ -751,7 +761,6 @@ func isFreshEmptySlice(v ssa.Value) bool {
 	}
 	return false
 }
-
 
 // builtFromAppendsOnly: v is nil/empty, or append(x, ...) with x built the same way, or a φ of such.
 func builtFromAppendsOnly(v ssa.Value, seen map[ssa.Value]bool) bool {
@@ -778,17 +787,117 @@ func builtFromAppendsOnly(v ssa.Value, seen map[ssa.Value]bool) bool {
 	return false
 }
 
-
 // replaceCalls: the calls of (*regexp.Regexp).ReplaceAll / ReplaceAllLiteral in fn.
 func replaceCalls(fn *ssa.Function) []*ssa.Call {
 	out := callsIn(fn, "(*regexp.Regexp).ReplaceAll")
 	return append(out, callsIn(fn, "(*regexp.Regexp).ReplaceAllLiteral")...)
 }
 
-
 func derefType(t types.Type) types.Type {
 	if pt, ok := t.Underlying().(*types.Pointer); ok {
 		return pt.Elem()
 	}
 	return t
+}
+
+// isSubmatchTag: v is match[1] of a (*regexp.Regexp).FindStringSubmatch call, possibly merged by φs
+// with the empty string (the "did not match" case).
+func isSubmatchTag(v ssa.Value, seen map[ssa.Value]bool) bool {
+	if seen[v] {
+		return true
+	}
+	seen[v] = true
+	switch x := v.(type) {
+	case *ssa.Const:
+		s, ok := constString(x)
+		return ok && s == ""
+	case *ssa.Phi:
+		any := false
+		for _, e := range x.Edges {
+			if !isSubmatchTag(e, seen) {
+				return false
+			}
+			if _, isC := e.(*ssa.Const); !isC {
+				any = true
+			}
+		}
+		return any
+	case *ssa.UnOp:
+		ia, ok := x.X.(*ssa.IndexAddr)
+		if !ok || x.Op != token.MUL {
+			return false
+		}
+		k, isK := constInt(ia.Index)
+		call, isCall := ia.X.(*ssa.Call)
+		return isK && k == 1 && isCall && calleeName(&call.Call) == "(*regexp.Regexp).FindStringSubmatch"
+	}
+	return false
+}
+
+// roleOfInlinedList: v is a tag list built in place (φ / append chain of items cut out of the
+// tokens of one FindAllString call): the name of the area field whose text was tokenised.
+func roleOfInlinedList(v ssa.Value) string {
+	seen := map[ssa.Value]bool{}
+	found := map[string]bool{}
+	var fromToken func(x ssa.Value, d int)
+	fromToken = func(x ssa.Value, d int) {
+		if x == nil || seen[x] || d > 12 {
+			return
+		}
+		seen[x] = true
+		switch y := x.(type) {
+		case *ssa.Call:
+			if calleeName(&y.Call) == "(*regexp.Regexp).FindAllString" {
+				if ld, ok := y.Call.Args[1].(*ssa.UnOp); ok {
+					if fa, ok := ld.X.(*ssa.FieldAddr); ok {
+						found[fieldAddrName(fa)] = true
+					}
+				}
+				return
+			}
+			for _, a := range y.Call.Args {
+				fromToken(a, d+1)
+			}
+		case *ssa.Phi:
+			for _, e := range y.Edges {
+				fromToken(e, d+1)
+			}
+		case *ssa.Slice:
+			fromToken(y.X, d+1)
+		case *ssa.ChangeType:
+			fromToken(y.X, d+1)
+		case *ssa.UnOp:
+			fromToken(y.X, d+1)
+		case *ssa.IndexAddr:
+			fromToken(y.X, d+1)
+		case *ssa.Alloc:
+			for _, r := range refs(y) {
+				switch z := r.(type) {
+				case *ssa.Store:
+					if z.Addr == ssa.Value(y) {
+						fromToken(z.Val, d+1)
+					}
+				case *ssa.IndexAddr:
+					for _, rr := range refs(z) {
+						if st, ok := rr.(*ssa.Store); ok && st.Addr == ssa.Value(z) {
+							fromToken(st.Val, d+1)
+						}
+					}
+				case *ssa.FieldAddr:
+					for _, rr := range refs(z) {
+						if st, ok := rr.(*ssa.Store); ok && st.Addr == ssa.Value(z) {
+							fromToken(st.Val, d+1)
+						}
+					}
+				}
+			}
+		}
+	}
+	fromToken(v, 0)
+	if len(found) == 1 {
+		for k := range found {
+			return k
+		}
+	}
+	return "?"
 }
